@@ -295,6 +295,9 @@ def euler(ai, bi, select, b1950=False, dtype="f8"):
     y = ctheta[i] * cbsa + stheta[i] * sb
     z = -stheta[i] * cbsa + ctheta[i] * sb
     bo = arctan2(z, np.sqrt(x * x + y * y)) * R2D
+    # in extended precision pi/2 times the float64 constant R2D can exceed 90
+    # by a rounding error
+    bo = np.clip(bo, -90.0, 90.0)
 
     a = arctan2(y, x)
 
@@ -757,6 +760,7 @@ def eq2sdss(ra_in, dec_in, dtype="f8"):
     ceta -= _sdsspar["etapole"]
 
     clambda *= R2D
+    np.clip(clambda, -90.0, 90.0, out=clambda)
     ceta *= R2D
 
     atbound(ceta, -180.0, 180.0)
